@@ -247,6 +247,56 @@ func CheckC19(e *Env) int {
 			add(b.P, "reject", "reject", fmt.Sprintf("injector-lacks(cleanup=%v,err=%v)/depth=%d", need&1 != 0, need&2 != 0, depth))
 		}
 	}
+	// the failing injector is not the first one: second in the file / in a second file, return or panic form,
+	// with and without parameters; plus malformed unreferenced sets declared in the injector file / in a var group
+	for pos := 0; pos < 2; pos++ {
+		for _, panicForm := range []bool{false, true} {
+			for _, withParam := range []bool{false, true} {
+				for _, class := range []string{"missing", "need-err"} {
+					b := NewPB(nid(), "app")
+					a, c, d := b.Carrier(0, "A"), b.Carrier(0, "C"), b.Carrier(0, "D")
+					fa := b.Func(0, "NewA", a, false, false)
+					fa.Stub = true
+					good := b.Inj("InitGood", a, false, false, nil, ItemRef(fa.ID))
+					var params []Param
+					var fc *Item
+					if withParam {
+						params = []Param{{Name: "d", Ty: d}}
+						fc = b.Func(0, "NewC", c, false, class == "need-err", d)
+					} else {
+						fc = b.Func(0, "NewC", c, false, class == "need-err")
+					}
+					fc.Stub = true
+					build := []Ref{ItemRef(fc.ID)}
+					if class == "missing" {
+						fc.Params = append(fc.Params, b.Carrier(0, "Absent"))
+					}
+					bad := b.Inj("InitBad", c, false, false, params, build...)
+					bad.Panic = panicForm
+					bad.File = pos
+					_ = good
+					add(b.P, "reject", "reject", fmt.Sprintf("second-injector/%s/file=%d/panic=%v/param=%v", class, pos, panicForm, withParam))
+				}
+			}
+		}
+	}
+	for v := 0; v < 4; v++ {
+		mut, ctl, _, ok := c05Case(nid(), "func", "value", "S", "unused-var(check)", false)
+		if !ok {
+			continue
+		}
+		for _, p := range []*Program{mut, ctl} {
+			for _, s := range p.Sets {
+				s.InInjectFile = v&1 != 0
+				s.Grouped = v&2 != 0
+				if v >= 2 && v&1 == 0 {
+					s.Name = "lowerCaseSet"
+				}
+			}
+		}
+		add(mut, "accept", "reject", fmt.Sprintf("conflict-in-unreferenced-set/injectfile=%v/grouped=%v", v&1 != 0, v&2 != 0))
+		add(ctl, "accept", "accept", "control-unreferenced-set-variants")
+	}
 	for _, rc := range c11Negatives() {
 		rc.P.ID = nid()
 		add(rc.P, "reject", "reject", "bad-binding")
